@@ -50,6 +50,24 @@ partial def parseArgs (toks : List String) (acc : List Arg) : Option (List Arg) 
     | some n => parseArgs rest (Arg.w (BitVec.ofNat 64 n) :: acc)
     | none => none
 
+/-- array access for long argument lists (generated dispatcher): kind string = one 'w' / 'r' per argument -/
+def kindsOk (a : Array Arg) (kinds : String) : Bool :=
+  a.size == kinds.length &&
+    (List.zip a.toList kinds.toList).all (fun p => match p.1, p.2 with
+      | .w _, 'w' => true
+      | .r _, 'r' => true
+      | _, _ => false)
+
+def wD (a : Array Arg) (i : Nat) : BitVec 64 :=
+  match a[i]? with
+  | some (.w v) => v
+  | _ => 0#64
+
+def rD (a : Array Arg) (i : Nat) : List (BitVec 64) :=
+  match a[i]? with
+  | some (.r l) => l
+  | _ => []
+
 def words? (args : List Arg) : Option (List (BitVec 64)) :=
   args.foldr (fun a acc => match a, acc with
     | .w v, some l => some (v :: l)
